@@ -1231,6 +1231,7 @@ func init() {
 	specs = append(specs, chkErrSpecs...)
 	specs = append(specs, ribRegistrySpecs...)
 	specs = append(specs, fluentBuilderSpecs...)
+	specs = append(specs, fluentModifySpecs...)
 }
 
 // ---- the fluent builders (fluent/fluent.go)
@@ -1363,8 +1364,62 @@ var fluentBuilderSpecs = func() []fnSpec {
 	for _, c := range [][3]string{{"IPv4Entry", "ipv4Entry", "flNewIPv4Entry"}, {"IPv6Entry", "ipv6Entry", "flNewIPv6Entry"}, {"LabelEntry", "labelEntry", "flNewLabelEntry"}, {"NextHopGroupEntry", "nextHopGroupEntry", "flNewNextHopGroupEntry"}, {"NextHopEntry", "nextHopEntry", "flNewNextHopEntry"}} {
 		out = append(out, fnSpec{file: "fluent/fluent.go", goName: c[0], callAs: "-", leanName: c[2], goRets: "*" + c[1], rets: []string{"ptr:" + c[1]}, typeMap: builderTypeMap})
 	}
+	out = append(out,
+		fnSpec{file: "fluent/fluent.go", goName: "Get", recvType: "*GRIBIClient", callAs: "-", leanName: "flNewGet", goRets: "*gRIBIGet", rets: []string{"ptr:gRIBIGet"}, typeMap: map[string]string{"GetRequest": "GetRequestG"}},
+		fnSpec{file: "fluent/fluent.go", goName: "Flush", recvType: "*GRIBIClient", callAs: "-", leanName: "flNewFlush", goRets: "*gRIBIFlush", rets: []string{"ptr:gRIBIFlush"}, typeMap: map[string]string{"FlushRequest": "FlushRequestB"}},
+	)
 	aft := req("gRIBIGet", "GetRequestG", "WithAFT", "flGetWithAFT", []param{{goName: "a", goType: "AFT", lean: "a", kd: kInt}})
 	aft.constMaps = map[string]string{"aftMap": "aftMap"}
 	out = append(out, aft)
 	return out
+}()
+
+// ---- the fluent client's Modify wrapper (fluent/fluent.go): AddEntry / DeleteEntry / ReplaceEntry
+// (each builds one request with entriesToModifyRequest and queues it), UpdateElectionID, Enqueue,
+// InjectRequest. `g.parent.c.Q(m)` is recorded as an effect.
+
+var fluentModifySpecs = func() []fnSpec {
+	entries := param{goName: "entries", goType: "...GRIBIEntry", lean: "entries", kd: kind{k: "list", s: "AFTOperation", optElems: true}}
+	tb := param{goName: "t", goType: "testing.TB", lean: "t", kd: kPtr("Unit"), skip: true}
+	wrap := func(goName, lean string) fnSpec {
+		return fnSpec{
+			file: "fluent/fluent.go", goName: goName, recvType: "*gRIBIModify", callAs: "-", leanName: lean,
+			params: []param{tb, entries}, goRets: "*gRIBIModify", rets: []string{"bool"},
+			oracleParams: []param{
+				{goName: "§parent", lean: "parent", kd: kPtr("Unit")},
+				{goName: "§conn", lean: "conn", kd: kPtr("gRIBIConnection")},
+				{goName: "§curElec", lean: "curElec", kd: kPtr("Uint128")},
+				{goName: "§opErr", lean: "opErr", kd: kind{k: "statusval"}},
+			},
+			oracles: map[string]oracle{"g.parent.c.Q": {results: []string{}, effect: "flQ"}},
+			subst:   map[string]string{"g.parent": "§parent", "g.parent.connection": "§conn", "g.parent.currentElectionID": "§curElec"},
+			state:   []stateField{{goExpr: "g.parent.opCount", lean: "opCount", kd: kNat}},
+			typeMap: map[string]string{"ModifyRequest": "ModifyRequestF"},
+			effects: true, tbFatal: true, builder: true,
+		}
+	}
+	toks := param{goName: "entries", goType: "...*spb.ModifyRequest", lean: "entries", kd: kind{k: "list", s: "ReqTok", optElems: true}}
+	return []fnSpec{
+		wrap("AddEntry", "flAddEntry"), wrap("DeleteEntry", "flDeleteEntry"), wrap("ReplaceEntry", "flReplaceEntry"),
+		{
+			file: "fluent/fluent.go", goName: "UpdateElectionID", recvType: "*gRIBIModify", callAs: "-", leanName: "flUpdateElectionID",
+			params: []param{tb, w64("low"), w64("high")}, goRets: "*gRIBIModify", rets: []string{},
+			oracles: map[string]oracle{"g.parent.c.Q": {results: []string{}, effect: "flQElec"}},
+			state:   []stateField{{goExpr: "g.parent.currentElectionID", lean: "curElec", kd: kPtr("Uint128")}},
+			typeMap: map[string]string{"ModifyRequest": "ModifyRequestE"},
+			effects: true, builder: true,
+		},
+		{
+			file: "fluent/fluent.go", goName: "Enqueue", recvType: "*gRIBIModify", callAs: "-", leanName: "flEnqueue",
+			params: []param{tb, toks}, goRets: "*gRIBIModify", rets: []string{},
+			oracles: map[string]oracle{"g.parent.c.Q": {results: []string{}, effect: "flQTok"}},
+			effects: true, builder: true,
+		},
+		{
+			file: "fluent/fluent.go", goName: "InjectRequest", recvType: "*gRIBIModify", callAs: "-", leanName: "flInjectRequest",
+			params: []param{tb, {goName: "m", goType: "*spb.ModifyRequest", lean: "m", kd: kPtr("ReqTok")}}, goRets: "*gRIBIModify", rets: []string{},
+			oracles: map[string]oracle{"g.parent.c.Q": {results: []string{}, effect: "flQTok"}},
+			effects: true, builder: true,
+		},
+	}
 }()
